@@ -173,6 +173,10 @@ def run(ctx):
     ctx.cov["concurrent_connections"] = len(ccases)
     ctx.cov["distinct_nontrivial"] += 1
     tc.finish(ctx)
+    # the same clauses at the level of the real Prometheus collectors (prometheus/metrics.go): MetricsCount.tla, behaviours
+    # generated by TLC driven through NewServiceMetrics(...), a Gather() of the registry judged by MetricsCountTrace
+    from checks import mc_common
+    mc_common.tcp_collector_part(ctx)
     vlib.write_evidence(ctx, "model_checking",
                         "TLC enumerates every outcome class of the connection model; simulated behaviours (pairwise distinct, "
                         "balanced over opener class / target kind / corruption / reset / amount of data) are executed on the "
